@@ -204,8 +204,7 @@ def main():
             "enable": "checks compile /repo/src/*.c themselves with -DKJN_LBZIP2_VERIF and link /verif/rt/verif_rt.c "
                       "(lib/core.py build()); variants rel/asan/msan/tsan/dbg are cached under /verif/build keyed by a hash "
                       "of the source contents",
-            "baseline_off_cmd": "cmake -G Ninja -S /repo -B /repo/_build -DCMAKE_BUILD_TYPE=RelWithDebInfo >/dev/null && "
-                                "cmake --build /repo/_build >/dev/null && ctest --test-dir /repo/_build -j8 --timeout 900",
+            "baseline_off_cmd": "/verif/baseline_off.sh",
             "source_commits": ["ff348f7", "1feeb33", "d397000"],
             "add_only": True,
         },
